@@ -14,7 +14,7 @@ LIM = {0: ('description', 255), 1: ('parameter-name', 127), 2: ('group-name', 12
 
 def jobs(tier, seed):
     out = []
-    def J(kind, v): out.append({'entry': 'h_c17', 'harness': 'h_c01.cpp', 'name': LIM[kind][0], 'cfg': {'kind': kind, 'value': v}, 'limit': LIM[kind][1]})
+    def J(kind, v): out.append({'entry': 'h_c17', 'harness': 'h_c01.cpp', 'name': LIM[kind][0], 'cfg': {'kind': kind, 'value': v, 'obsfile': 0}, 'limit': LIM[kind][1]})
     for kind in (0, 1, 2, 3, 4):
         L = LIM[kind][1]
         for v in (L - 1, L, L + 1, L + 45, 2 * L + 2): J(kind, v)
@@ -23,7 +23,7 @@ def jobs(tier, seed):
     for kind in (7, 8):
         for v in ((255, 256) if tier == 'quick' else (254, 255, 256, 300)): J(kind, v)
     if tier == 'thorough':
-        for v in (250, 480, 483, 520): J(9, v)
+        for v in (250, 490, 492, 494, 496, 520): J(9, v)       # 494 parameters fill 255 blocks, 496 need 256
         for nm, sh, kw in (('frames-32767', dict(P=0, C=1, sub=1, F=32767), {}), ('last-frame-65535', dict(P=1, C=0, sub=0, F=40), {'first': 65496, 'analog': 'empty'}),
                            ('blocks-255', dict(P=1, C=0, sub=0, F=1), {'analog': 'empty', 'extras': [{'name': 'BIGA', 'type': 1, 'dims': [255, 250]}, {'name': 'BIGB', 'type': 1, 'dims': [255, 255]}, {'name': 'BIGC', 'type': 1, 'dims': [10, 1]}]})):
             out.append({'entry': 'h_load', 'harness': 'h_load.cpp', 'name': nm, 'cfg': {'gens': 2, 'dump': 1, 'obsfiles': 0}, 'shape': sh, 'lay': {}, 'opts': dict(kw, symbolic_meta=False), 'file': True})
